@@ -130,6 +130,7 @@ type c07Res struct {
 	Variant   string     `json:"variant"`
 	V13       bool       `json:"v13"`
 	Drop      int        `json:"drop"`
+	Early     bool       `json:"early"` // real-time session with Writes issued before and during the handshake
 	Done      bool       `json:"done"`
 	Err       string     `json:"err,omitempty"`
 	Datagrams int        `json:"datagrams"`
@@ -464,46 +465,131 @@ func (w *c07Writer) write(p *vPeer, rng *vRand, tag string, early bool, est func
 	}()
 }
 
-func c07Session(t *testing.T, v c07Variant, rng *vRand, drop int, mtu int) c07Res {
+// c07Net drives the lab network either inside a synctest bubble (virtual time, lab pump) or in real time.
+// Real time is needed for the sessions with Writes issued before/during the handshake: those block on
+// Conn.handshakeMutex, and a goroutine blocked on a sync.Mutex keeps a synctest bubble from ever being idle.
+type c07Net struct {
+	lab       *vLab
+	real      bool
+	next      int
+	drop      int
+	onDeliver func()
+}
+
+func (n *c07Net) settle() {
+	if n.real {
+		time.Sleep(3 * time.Millisecond)
+	} else {
+		synctest.Wait()
+	}
+}
+
+func (n *c07Net) deliverNew() bool {
+	news := n.lab.Net.since(n.next)
+	for _, d := range news {
+		n.next = d.Idx + 1
+		if d.Idx == n.drop {
+			continue
+		}
+		n.lab.Net.deliver(d.To, d.From, d.Data)
+		if n.onDeliver != nil {
+			n.onDeliver()
+		}
+		time.Sleep(300 * time.Microsecond)
+	}
+
+	return len(news) > 0
+}
+
+// run until done() (checked between deliveries) or until `limit` passes
+func (n *c07Net) run(done func() bool, limit time.Duration) bool {
+	if !n.real {
+		n.lab.Pump.Policy = func(d vDatagram) (vAction, int) {
+			if d.Idx == n.drop {
+				return vDrop, 0
+			}
+
+			return vPass, 0
+		}
+		n.lab.Pump.OnDeliver = func(vDatagram) {
+			if n.onDeliver != nil {
+				n.onDeliver()
+			}
+		}
+
+		return n.lab.Pump.run(done, limit)
+	}
+	if limit > 8*time.Second {
+		limit = 8 * time.Second
+	}
+	deadline := time.Now().Add(limit)
+	for !done() {
+		if !n.deliverNew() {
+			if time.Now().After(deadline) {
+				return done()
+			}
+			time.Sleep(500 * time.Microsecond)
+		}
+	}
+
+	return true
+}
+
+// deliver everything in flight until the network is quiet
+func (n *c07Net) drain(limit time.Duration) {
+	if !n.real {
+		n.run(func() bool { return false }, limit)
+
+		return
+	}
+	quiet := 0
+	for quiet < 12 {
+		if n.deliverNew() {
+			quiet = 0
+		} else {
+			quiet++
+			time.Sleep(time.Millisecond)
+		}
+	}
+}
+
+func c07Session(t *testing.T, v c07Variant, rng *vRand, drop int, mtu int, early bool) c07Res {
 	t.Helper()
-	res := c07Res{Kind: "session", Variant: v.Name, V13: v.V13, Drop: drop, Stage: -1}
+	res := c07Res{Kind: "session", Variant: v.Name, V13: v.V13, Drop: drop, Stage: -1, Early: early}
 	ccfg, scfg := v.mk()
 	if mtu > 0 {
 		ccfg.MTU, scfg.MTU = mtu, mtu
 	}
 	lab := newLab(t, ccfg, scfg)
+	net := &c07Net{lab: lab, real: early, drop: drop}
 	wr := &c07Writer{}
 	estC := lab.Client.Conn.isHandshakeCompletedSuccessfully
 	estS := lab.Server.Conn.isHandshakeCompletedSuccessfully
-	// Writes issued BEFORE the handshake has made any progress, from other goroutines
-	wr.write(lab.Client, rng, "pre", true, estC)
-	wr.write(lab.Server, rng, "pre", true, estS)
-	synctest.Wait()
-	lab.Pump.Policy = func(d vDatagram) (vAction, int) {
-		if d.Idx == drop {
-			return vDrop, 0
-		}
-
-		return vPass, 0
-	}
-	nd := 0
-	lab.Pump.OnDeliver = func(vDatagram) {
-		nd++
-		if nd <= 8 { // Writes issued DURING the handshake
-			if !estC() {
-				wr.write(lab.Client, rng, fmt.Sprintf("during%d", nd), true, estC)
-			}
-			if !estS() {
-				wr.write(lab.Server, rng, fmt.Sprintf("during%d", nd), true, estS)
+	if early {
+		// Writes issued BEFORE the handshake has made any progress, from other goroutines
+		wr.write(lab.Client, rng, "pre", true, estC)
+		wr.write(lab.Server, rng, "pre", true, estS)
+		net.settle()
+		nd := 0
+		net.onDeliver = func() {
+			nd++
+			if nd <= 8 { // Writes issued DURING the handshake
+				if !estC() {
+					wr.write(lab.Client, rng, fmt.Sprintf("during%d", nd), true, estC)
+				}
+				if !estS() {
+					wr.write(lab.Server, rng, fmt.Sprintf("during%d", nd), true, estS)
+				}
 			}
 		}
 	}
-	lab.Pump.run(lab.bothDone, 300*time.Second)
+	net.run(lab.bothDone, 300*time.Second)
+	net.onDeliver = nil
 	res.Done = lab.established()
 	if !res.Done {
 		res.Err = fmt.Sprintf("client=%v server=%v", lab.Client.Err, lab.Server.Err)
 	}
-	lab.Pump.Policy, lab.Pump.OnDeliver = nil, nil
+	net.drop = -1
 	if res.Done {
 		lab.Client.startReader()
 		lab.Server.startReader()
@@ -524,8 +610,15 @@ func c07Session(t *testing.T, v c07Variant, rng *vRand, drop int, mtu int) c07Re
 				}(p, k)
 			}
 		}
-		lab.Pump.run(func() bool { return false }, 2*time.Second)
+		if early {
+			for waited := 0; waited < 400; waited++ { // the writers run in real time
+				net.deliverNew()
+				time.Sleep(500 * time.Microsecond)
+			}
+		}
+		net.drain(2 * time.Second)
 		wg.Wait()
+		net.drain(time.Second)
 		if v.V13 {
 			// key updates, with traffic in between
 			for i, p := range []*vPeer{lab.Client, lab.Server} {
@@ -535,7 +628,7 @@ func c07Session(t *testing.T, v c07Variant, rng *vRand, drop int, mtu int) c07Re
 					defer cancel()
 					errc <- p.Conn.UpdateKeys(ctx, KeyUpdateOptions{RequestPeerUpdate: req})
 				}(p, i == 0)
-				lab.Pump.run(func() bool { return len(errc) > 0 }, 30*time.Second)
+				net.run(func() bool { return len(errc) > 0 }, 30*time.Second)
 				select {
 				case err := <-errc:
 					if err == nil {
@@ -548,7 +641,7 @@ func c07Session(t *testing.T, v c07Variant, rng *vRand, drop int, mtu int) c07Re
 				wr.payloads = append(wr.payloads, pl)
 				wr.mu.Unlock()
 				_, _ = p.Conn.Write(pl)
-				lab.Pump.run(func() bool { return false }, time.Second)
+				net.drain(time.Second)
 			}
 		}
 		// exporter: both sides agree, and no value computable from the hellos equals it
@@ -581,9 +674,9 @@ func c07Session(t *testing.T, v c07Variant, rng *vRand, drop int, mtu int) c07Re
 	secrets := c07HandshakeSecrets(lab, v.V13)
 	// an alert and Close: alerts are records too
 	_ = lab.Client.Conn.Close()
-	lab.Pump.run(func() bool { return false }, time.Second)
+	net.drain(time.Second)
 	_ = lab.Server.Conn.Close()
-	synctest.Wait()
+	net.settle()
 	wr.mu.Lock()
 	for _, pl := range wr.payloads {
 		secrets = append(secrets, c07Secret{what: "payload", b: pl[len(pl)-24:]}, c07Secret{what: "payload", b: pl[:20]})
@@ -604,7 +697,13 @@ func c07Session(t *testing.T, v c07Variant, rng *vRand, drop int, mtu int) c07Re
 		}
 	}
 	c07Scan(lab, v.V13, secrets, &res)
-	lab.close()
+	if early {
+		_ = lab.Client.EP.Close()
+		_ = lab.Server.EP.Close()
+		time.Sleep(2 * time.Millisecond)
+	} else {
+		lab.close()
+	}
 
 	return res
 }
@@ -725,9 +824,13 @@ func c07Inject(t *testing.T, v c07Variant, rng *vRand, stage int, form int) c07R
 		_, _ = lab.other(res.Target).Conn.Write(pl)
 		lab.Pump.run(func() bool { return false }, time.Second)
 	} else if injected {
-		// the target may have aborted; a reader on a failed handshake returns the error at once
-		lab.Client.startReader()
-		lab.Server.startReader()
+		// the target may have aborted: a reader on a finished (failed) handshake returns the error at once; a
+		// reader on a handshake still in progress would block on the handshake mutex (never idle in a bubble)
+		for _, p := range []*vPeer{lab.Client, lab.Server} {
+			if p.handshakeDone() && p.Err == nil {
+				p.startReader()
+			}
+		}
 		synctest.Wait()
 	}
 	res.MarkerRead = sawMarker(lab.Client) || sawMarker(lab.Server)
@@ -763,11 +866,18 @@ func TestVerifC07(t *testing.T) {
 					mtu = 150 + rng.intn(300)
 				}
 				var res c07Res
-				vBubble(t, func(t *testing.T) { res = c07Session(t, v, rng, drop, mtu) })
+				vBubble(t, func(t *testing.T) { res = c07Session(t, v, rng, drop, mtu, false) })
 				out.emit(res)
 				if r > 0 {
 					break
 				}
+			}
+			// real time: Writes before and during the handshake (no loss, then the first flight-5/flight-4 datagram lost)
+			for _, drop := range []int{-1, 3} {
+				if r > 0 && drop >= 0 {
+					continue
+				}
+				out.emit(c07Session(t, v, rng, drop, 0, true))
 			}
 			maxStage := 7
 			if v.V13 {
